@@ -47,7 +47,9 @@
 //                   (R,0,0,0) ..= (R,0,0,511), INSIDE the recursive window: nothing may be freed, written or
 //                   resolved. (Without the filter the call treats P4 as a level-3 table, T1 as a level-2 table,
 //                   T2 as an empty level-1 table, and frees T2 and T1.)
-//   straddle        range = last page of level-4 slot R-1 ..= first page of slot R; T1[511] -> T2, both hold
+//   straddle_absent range = last page of level-4 slot R-1 ..= first page of slot R, P4[R-1] absent, an empty level-2
+//                   table elsewhere: nothing may be freed, written or dereferenced.
+//   straddle        (thorough) range = last page of level-4 slot R-1 ..= first page of slot R; T1[511] -> T2, both hold
 //                   JUNK in slot 0; nothing may go, slot R must not be entered.
 //   straddle_free   (thorough) the same with T1, T2 otherwise empty: T2 and T1 go.
 //   window_p1, huge_pages   the scenarios of c10_cleanup.rs with the recursive entry added (parity).
@@ -141,8 +143,8 @@ mod verif_c10_cleanup_recursive {
     }
     /// Runs the MMU and the crate's three address helpers once BEFORE the call under test (first
     /// reach of their internal checks, see `oracle_selftest`), and checks the MMU on three addresses
-    /// whose answer is the same in every scenario: the level-4 table through the window, the level-3
-    /// table of P4[0], a page fault.
+    /// whose answer is known in every scenario: the level-4 table through the window, the level-3
+    /// table of P4[0] (a page fault where P4[0] is absent), page faults under the absent P4[2] and P4[255].
     fn mmu_selftest(pool: &Pool) -> bool {
         let m = mmu();
         let r = PageTableIndex::new(R as u16);
@@ -151,12 +153,18 @@ mod verif_c10_cleanup_recursive {
         let b: *mut PageTable = c10_mmu_as_mut_ptr(VirtAddr::new(va(255, 511, 511, 511)));
         ok = ok && b == m.trap && m.n == 2 && m.res[1] == NONE && m.outside == 1;
         mmu_reset();
-        let t1 = lookup(pool.rd(0, 0) & ADDR);
+        let e0 = pool.rd(0, 0);
+        let t1 = if e0 & P != 0 { lookup(e0 & ADDR) } else { NONE };
         let c = p3_ptr(pg(0), r);
-        ok = ok && t1 != NONE && c == pool.p[t1] && m.n == 1 && m.res[0] == t1 && mmu_requests_ok();
+        if t1 != NONE {
+            ok = ok && c == pool.p[t1] && m.n == 1 && m.res[0] == t1 && m.outside == 0 && mmu_requests_ok();
+        } else {
+            ok = ok && c == m.trap && m.n == 1 && m.res[0] == NONE && m.outside == 1 && !mmu_requests_ok();
+        }
+        mmu_reset();
         let d = p2_ptr(pg(va(2, 0, 0, 0)), r);
         let e = p1_ptr(pg(va(2, 0, 0, 0)), r);
-        ok = ok && d == m.trap && e == m.trap && m.n == 3 && m.outside == 2 && !mmu_requests_ok();
+        ok = ok && d == m.trap && e == m.trap && m.n == 2 && m.outside == 2 && !mmu_requests_ok();
         mmu_reset();
         ok
     }
@@ -214,7 +222,7 @@ mod verif_c10_cleanup_recursive {
             let pre = pool.rd(k, s);
 
             ob!(pick, 1, oracle_selftest(&pool), concat!("C10.recursive_", $name, ".only_empty_overlapping_tables_freed: (harness sanity) the oracle helpers give the hand-computed answers on a made-up log"));
-            ob!(pick, 10, mmu_selftest(&pool), concat!("C10.recursive_", $name, ".recursive_slot_untouched: (harness sanity) the software MMU resolves (R,R,R,R) to the level-4 table, (R,R,R,0) to the level-3 table of slot 0, an unmapped address to the trap table"));
+            ob!(pick, 10, mmu_selftest(&pool), concat!("C10.recursive_", $name, ".recursive_slot_untouched: (harness sanity) the software MMU resolves (R,R,R,R) to the level-4 table, (R,R,R,0) to the level-3 table of slot 0 if there is one, an unmapped address to the trap table"));
             ob!(pick, 11, pool.rd(0, R) == REC, concat!("C10.recursive_", $name, ".recursive_slot_untouched: (harness sanity) the scenario has the recursive entry in level-4 slot R"));
 
             // vacuity guard BEFORE the call (C10_NOTES.md section 2, item 4)
@@ -359,6 +367,31 @@ mod verif_c10_cleanup_recursive {
             [false, false, false, false, false, false, false],
             va(R, 0, 0, 0),
             va(R, 0, 0, 511)
+        );
+    }
+
+    // straddle_absent: range = last page of level-4 slot R-1 ..= first page of slot R, as in `straddle` below, but
+    // P4[R-1] is absent (cheap: no `skip(511)`); the hierarchy is P4[3] -> T1, T1[0] -> T2, T2 an empty level-2 table,
+    // outside the range. Slot R-1 has nothing, slot R must not be entered: nothing may be freed, written or dereferenced.
+    //@ obligation C10 C10.recursive_straddle_absent.only_empty_overlapping_tables_freed bounded="concrete pre-state scenario straddle_absent; pool of 7 literal tables; recursive index 1"
+    //@ obligation C10 C10.recursive_straddle_absent.each_once_after_unlink bounded="concrete pre-state scenario straddle_absent; pool of 7 literal tables; recursive index 1"
+    //@ obligation C10 C10.recursive_straddle_absent.no_empty_table_left_inside_range bounded="concrete pre-state scenario straddle_absent; pool of 7 literal tables; recursive index 1"
+    //@ obligation C10 C10.recursive_straddle_absent.only_parent_slots_of_freed_tables_change bounded="concrete pre-state scenario straddle_absent; pool of 7 literal tables; recursive index 1"
+    //@ obligation C10 C10.recursive_straddle_absent.translation_unchanged bounded="concrete pre-state scenario straddle_absent; pool of 7 literal tables; recursive index 1"
+    //@ obligation C10 C10.recursive_straddle_absent.repeat_frees_nothing bounded="concrete pre-state scenario straddle_absent; pool of 7 literal tables; recursive index 1"
+    //@ obligation C10 C10.recursive_straddle_absent.recursive_slot_untouched bounded="concrete pre-state scenario straddle_absent; pool of 7 literal tables; recursive index 1"
+    #[kani::proof]
+    #[kani::unwind(513)]
+    #[kani::stub(crate::addr::VirtAddr::as_mut_ptr, c10_mmu_as_mut_ptr)]
+    fn c10_recursive_straddle_absent() {
+        rscenario!(
+            "straddle_absent",
+            [tbl(&[(R, REC), (3, F[1] | TBL)]), tbl(&[(0, F[2] | TBL)]), EMPTY, EMPTY, EMPTY, EMPTY, EMPTY],
+            [NOP, (0, 3), (1, 0), NOP, NOP, NOP, NOP],
+            [false, false, false, false, false, false, false],
+            [false, false, false, false, false, false, false],
+            va(R - 1, 511, 511, 511),
+            va(R, 0, 0, 0)
         );
     }
 
